@@ -223,8 +223,10 @@ func interp(n *node, response bool, truth map[int]bool) outcome {
 		}
 	case 'C':
 		if truth[n.cond] {
+			core.Count("cond:" + condPool[n.cond].filter + ":true")
 			return interp(n.kids[0], response, truth)
 		}
+		core.Count("cond:" + condPool[n.cond].filter + ":false")
 		return interp(n.els, response, truth)
 	}
 	return o
@@ -353,7 +355,7 @@ func (e *ex) run(kind string, m *msgSpec) core.Result {
 	}
 	es, flat, ok := canonErr(err)
 	if !ok {
-		return fail("c12:foreign-error", "modifier returned an error that no leaf produced: %v", err)
+		return fail("c12:foreign-error", "modifier returned something other than nil, a leaf error, or one MultiError of leaf errors (nesting deeper than one?): %T %v", err, err)
 	}
 	impl := "t=" + intsToken(tr) + " e=" + es
 	truth := map[int]bool{}
